@@ -131,6 +131,15 @@ class CaseCheck:
                         if len(verdict.violations) < 20 else "(not saved)"
                     verdict.violation(path, ",".join(b["reasons"]) + " " + json.dumps(self.facts(c, b)))
 
+            # behaviour the specification covers beyond the property's statement: reported, never an alarm
+            if v.get("diverged"):
+                d = v["diverged"]
+                log("%d cases diverge from the specification outside the property's statement, e.g. %s"
+                    % (len(d), json.dumps(d[0])))
+            if "diverged" in v:
+                verdict.coverage["model_divergences"] = len(v["diverged"])
+                verdict.coverage["divergence_samples"] = v["diverged"][:3]
+
             selftest = self.selftest(work, lines)
             distinct = len({case_key(c) for c in lines})
             verdict.coverage.update({
